@@ -33,6 +33,7 @@ pub trait StoreOps: Send + Sync {
     /// whole-storage operation; `base` is the first of 64 fresh values that may be written
     fn wop(&self, world: &World, op: &Value, base: i64) -> Option<Value>;
     fn with_builder<'a>(&self, b: EntityBuilder<'a>, c: (u32, u32)) -> EntityBuilder<'a>;
+    fn without_builder<'a>(&self, b: EntityBuilder<'a>) -> EntityBuilder<'a>;
     fn with_res_builder<'a>(
         &self,
         b: EntityResBuilder<'a>,
@@ -51,6 +52,29 @@ struct SetupSys<T>(PhantomData<fn() -> T>);
 impl<'a, T: TokComp> System<'a> for SetupSys<T> {
     type SystemData = WriteStorage<'a, T>;
     fn run(&mut self, _d: Self::SystemData) {}
+}
+
+
+thread_local! {
+    /// alternate between the equivalent ways of reaching a storage
+    pub static ALT: std::cell::Cell<u32> = std::cell::Cell::new(0);
+}
+
+/// `read_storage`, its alias `read_component`, or the system-data route
+fn rd<T: Component>(world: &World) -> ReadStorage<'_, T> {
+    match ALT.with(|a| a.get()) % 3 {
+        0 => world.read_storage::<T>(),
+        1 => world.read_component::<T>(),
+        _ => world.system_data::<ReadStorage<T>>(),
+    }
+}
+
+fn wr<T: Component>(world: &World) -> WriteStorage<'_, T> {
+    match ALT.with(|a| a.get()) % 3 {
+        0 => world.write_storage::<T>(),
+        1 => world.write_component::<T>(),
+        _ => world.system_data::<WriteStorage<T>>(),
+    }
 }
 
 fn optjs<T: TokComp>(o: Option<&T>) -> Value {
@@ -100,7 +124,7 @@ where
         let e = world.entities().entity((1 << 24) + 5);
         let v = T::new(c.0, c.1);
         let r = crate::util::catch(|| {
-            let mut st = world.write_storage::<T>();
+            let mut st = wr::<T>(world);
             let r = st.insert(e, v);
             if let Ok(Some(old)) = r {
                 give_back(old);
@@ -131,7 +155,7 @@ where
             "drain" => {
                 let n = op["n"].as_i64().unwrap_or(-1);
                 let ents = world.entities();
-                let mut st = world.write_storage::<T>();
+                let mut st = wr::<T>(world);
                 let mut items = vec![];
                 let mut it = (&ents, st.drain()).join();
                 loop {
@@ -149,17 +173,17 @@ where
                 json!({"n": n, "items": items})
             }
             "clear" => {
-                let mut st = world.write_storage::<T>();
+                let mut st = wr::<T>(world);
                 st.clear();
                 json!({})
             }
             "count" => {
-                let st = world.read_storage::<T>();
+                let st = rd::<T>(world);
                 json!({"n": st.count(), "b": st.is_empty()})
             }
             "join" => {
                 let ents = world.entities();
-                let st = world.read_storage::<T>();
+                let st = rd::<T>(world);
                 let items: Vec<Value> = match v {
                     "lend" => {
                         let mut out = vec![];
@@ -191,7 +215,7 @@ where
                 let items = match v {
                     "lend" => {
                         let ents = world.entities();
-                        let mut st = world.write_storage::<T>();
+                        let mut st = wr::<T>(world);
                         let mut out = vec![];
                         let mut it = (&ents, &mut st).lend_join();
                         let mut j = 0;
@@ -212,7 +236,7 @@ where
             }
             "joinent" => {
                 let ents = world.entities();
-                let st = world.read_storage::<T>();
+                let st = rd::<T>(world);
                 let items: Vec<Value> = (&ents, &st)
                     .join()
                     .map(|(e, c)| json!([[e.id(), e.gen().id()], c.js()]))
@@ -221,7 +245,7 @@ where
             }
             "entries" => {
                 let ents = world.entities();
-                let mut st = world.write_storage::<T>();
+                let mut st = wr::<T>(world);
                 let mut items = vec![];
                 let mut it = (&ents, st.entries()).lend_join();
                 while let Some((e, en)) = it.next() {
@@ -237,13 +261,13 @@ where
                 let items: Vec<Value> = match v {
                     "read" => {
                         let ents = world.entities();
-                        let st = world.read_storage::<T>();
+                        let st = rd::<T>(world);
                         let r = st.restrict();
                         (&ents, &r).join().map(|(e, it)| json!([e.id(), it.get().js(), false, -2])).collect()
                     }
                     "read_lend" => {
                         let ents = world.entities();
-                        let st = world.read_storage::<T>();
+                        let st = rd::<T>(world);
                         let r = st.restrict();
                         let mut out = vec![];
                         let mut j = (&ents, &r).lend_join();
@@ -254,7 +278,7 @@ where
                     }
                     "read_par" => {
                         let ents = world.entities();
-                        let st = world.read_storage::<T>();
+                        let st = rd::<T>(world);
                         let r = st.restrict();
                         let out = std::sync::Mutex::new(vec![]);
                         (&ents, &r).par_join().for_each(|(e, it)| {
@@ -266,7 +290,7 @@ where
                     }
                     "mut_lend" => {
                         let ents = world.entities();
-                        let mut st = world.write_storage::<T>();
+                        let mut st = wr::<T>(world);
                         let mut r = st.restrict_mut();
                         let mut out = vec![];
                         let mut it = (&ents, &mut r).lend_join();
@@ -312,34 +336,34 @@ where
         match path {
             // ------------------------------------------------ reads
             "get" => {
-                let st = world.read_storage::<T>();
+                let st = rd::<T>(world);
                 json!({"cls":"read","res": optjs(st.get(e))})
             }
             "wget" => {
-                let st = world.write_storage::<T>();
+                let st = wr::<T>(world);
                 json!({"cls":"read","res": optjs(st.get(e))})
             }
             "gget" => {
-                let st = world.read_storage::<T>();
+                let st = rd::<T>(world);
                 json!({"cls":"read","res": optjs(specs::storage::GenericReadStorage::get(&st, e))})
             }
             "gwget" => {
-                let st = world.write_storage::<T>();
+                let st = wr::<T>(world);
                 json!({"cls":"read","res": optjs(specs::storage::GenericReadStorage::get(&&st, e))})
             }
             "contains" => {
-                let st = world.read_storage::<T>();
+                let st = rd::<T>(world);
                 json!({"cls":"read","b": st.contains(e)})
             }
             "lend_get" => {
-                let st = world.read_storage::<T>();
+                let st = rd::<T>(world);
                 let ents = world.entities();
                 let mut it = (&st).lend_join();
                 let r = it.get(e, &ents).map(|c| c.js()).unwrap_or_else(absent);
                 json!({"cls":"read","res": r})
             }
             "lend2_get" => {
-                let st = world.read_storage::<T>();
+                let st = rd::<T>(world);
                 let ents = world.entities();
                 let mut it = (&ents, &st).lend_join();
                 let r = it
@@ -357,7 +381,7 @@ where
             "r_get_other" => {
                 // asked from *every* item of the restricted join: the answer must
                 // not depend on which entity the join is currently visiting
-                let st = world.read_storage::<T>();
+                let st = rd::<T>(world);
                 let r = st.restrict();
                 let ress: Vec<Value> = (&r).join().map(|item| optjs(item.get_other(e))).collect();
                 if ress.is_empty() {
@@ -367,7 +391,7 @@ where
                 }
             }
             "rl_get_other" => {
-                let st = world.read_storage::<T>();
+                let st = rd::<T>(world);
                 let r = st.restrict();
                 let mut it = (&r).lend_join();
                 let mut ress: Vec<Value> = vec![];
@@ -381,7 +405,7 @@ where
                 }
             }
             "rm_get_other" => {
-                let mut st = world.write_storage::<T>();
+                let mut st = wr::<T>(world);
                 let mut r = st.restrict_mut();
                 let mut it = (&mut r).lend_join();
                 let mut ress: Vec<Value> = vec![];
@@ -395,7 +419,7 @@ where
                 }
             }
             "entry_get" => {
-                let mut st = world.write_storage::<T>();
+                let mut st = wr::<T>(world);
                 let r = match st.entry(e) {
                     Ok(StorageEntry::Occupied(o)) => o.get().js(),
                     Ok(StorageEntry::Vacant(_)) => absent(),
@@ -405,7 +429,7 @@ where
             }
             // ------------------------------------------------ mutable access
             "get_mut" => {
-                let mut st = world.write_storage::<T>();
+                let mut st = wr::<T>(world);
                 let r = match st.get_mut(e) {
                     Some(mut a) => {
                         let before = (&*a).js();
@@ -419,7 +443,7 @@ where
                 json!({"cls":"write","res": r})
             }
             "gget_mut" => {
-                let mut st = world.write_storage::<T>();
+                let mut st = wr::<T>(world);
                 let r = match GenericWriteStorage::get_mut(&mut st, e) {
                     Some(mut a) => {
                         let before = (&*a).js();
@@ -433,7 +457,7 @@ where
                 json!({"cls":"write","res": r})
             }
             "lend_get_mut" => {
-                let mut st = world.write_storage::<T>();
+                let mut st = wr::<T>(world);
                 let ents = world.entities();
                 let mut it = (&mut st).lend_join();
                 let r = match it.get(e, &ents) {
@@ -449,7 +473,7 @@ where
                 json!({"cls":"write","res": r})
             }
             "rm_get_other_mut" => {
-                let mut st = world.write_storage::<T>();
+                let mut st = wr::<T>(world);
                 let mut r = st.restrict_mut();
                 let mut it = (&mut r).lend_join();
                 let mut ress: Vec<Value> = vec![];
@@ -475,7 +499,7 @@ where
                 }
             }
             "entry_get_mut" => {
-                let mut st = world.write_storage::<T>();
+                let mut st = wr::<T>(world);
                 let r = match st.entry(e) {
                     Ok(StorageEntry::Occupied(mut o)) => {
                         let mut a = o.get_mut();
@@ -490,7 +514,7 @@ where
                 json!({"cls":"write","res": r})
             }
             "entry_into_mut" => {
-                let mut st = world.write_storage::<T>();
+                let mut st = wr::<T>(world);
                 let r = match st.entry(e) {
                     Ok(StorageEntry::Occupied(o)) => {
                         let mut a = o.into_mut();
@@ -506,7 +530,7 @@ where
             }
             // ------------------------------------------------ insertion
             "insert" => {
-                let mut st = world.write_storage::<T>();
+                let mut st = wr::<T>(world);
                 let r = match st.insert(e, T::new(c.0, c.1)) {
                     Ok(Some(old)) => {
                         let j = old.js();
@@ -519,7 +543,7 @@ where
                 json!({"cls":"insert","res": r})
             }
             "ginsert" => {
-                let mut st = world.write_storage::<T>();
+                let mut st = wr::<T>(world);
                 let r = match GenericWriteStorage::insert(&mut st, e, T::new(c.0, c.1)) {
                     Ok(Some(old)) => {
                         let j = old.js();
@@ -532,7 +556,7 @@ where
                 json!({"cls":"insert","res": r})
             }
             "entry_replace" => {
-                let mut st = world.write_storage::<T>();
+                let mut st = wr::<T>(world);
                 let v = T::new(c.0, c.1);
                 let r = match st.entry(e) {
                     Ok(en) => match en.replace(v) {
@@ -551,7 +575,7 @@ where
                 json!({"cls":"insert","res": r})
             }
             "entry_insert" => {
-                let mut st = world.write_storage::<T>();
+                let mut st = wr::<T>(world);
                 let v = T::new(c.0, c.1);
                 let r = match st.entry(e) {
                     Ok(StorageEntry::Occupied(mut o)) => {
@@ -572,7 +596,7 @@ where
                 json!({"cls":"insert","res": r})
             }
             "or_insert" => {
-                let mut st = world.write_storage::<T>();
+                let mut st = wr::<T>(world);
                 let v = T::new(c.0, c.1);
                 let r = match st.entry(e) {
                     Ok(en) => {
@@ -587,7 +611,7 @@ where
                 json!({"cls":"orins","res": r})
             }
             "or_insert_with" => {
-                let mut st = world.write_storage::<T>();
+                let mut st = wr::<T>(world);
                 let v = T::new(c.0, c.1);
                 let r = match st.entry(e) {
                     Ok(en) => {
@@ -603,7 +627,7 @@ where
             }
             // ------------------------------------------------ removal
             "remove" => {
-                let mut st = world.write_storage::<T>();
+                let mut st = wr::<T>(world);
                 let r = match st.remove(e) {
                     Some(old) => {
                         let j = old.js();
@@ -615,7 +639,7 @@ where
                 json!({"cls":"remove","res": r})
             }
             "entry_remove" => {
-                let mut st = world.write_storage::<T>();
+                let mut st = wr::<T>(world);
                 let r = match st.entry(e) {
                     Ok(StorageEntry::Occupied(o)) => {
                         let old = o.remove();
@@ -629,7 +653,7 @@ where
             }
             // ------------------------------------------------ get-or-default
             "gmod" => {
-                let mut st = world.write_storage::<T>();
+                let mut st = wr::<T>(world);
                 let r = match st.get_mut_or_default(e) {
                     Some(mut a) => {
                         let before = (&*a).js();
@@ -647,21 +671,30 @@ where
     }
 
     fn sweep(&self, world: &World, hs: &[Entity]) -> Value {
-        let st = world.read_storage::<T>();
+        let st = rd::<T>(world);
         let mask: Vec<u32> = {
             use specs::hibitset::BitSetLike;
             st.mask().iter().collect()
         };
         let get: Vec<Value> = hs.iter().map(|&h| optjs(st.get(h))).collect();
+        // aliveness as the storage's own fetched entities see it
+        let ealive: Vec<bool> = hs.iter().map(|&h| st.fetched_entities().is_alive(h)).collect();
         drop(st);
         match T::read_events(world) {
-            Some(evs) => json!({"mask": mask, "get": get, "evs": evs}),
-            None => json!({"mask": mask, "get": get}),
+            Some(evs) => json!({"mask": mask, "get": get, "ealive": ealive, "evs": evs}),
+            None => json!({"mask": mask, "get": get, "ealive": ealive}),
         }
     }
 
     fn with_builder<'a>(&self, b: EntityBuilder<'a>, c: (u32, u32)) -> EntityBuilder<'a> {
-        b.with(T::new(c.0, c.1))
+        if ALT.with(|a| a.get()) % 2 == 1 {
+            b.maybe_with(Some(T::new(c.0, c.1)))
+        } else {
+            b.with(T::new(c.0, c.1))
+        }
+    }
+    fn without_builder<'a>(&self, b: EntityBuilder<'a>) -> EntityBuilder<'a> {
+        b.maybe_with(None::<T>)
     }
 
     fn with_res_builder<'a>(
@@ -670,7 +703,7 @@ where
         world: &World,
         c: (u32, u32),
     ) -> EntityResBuilder<'a> {
-        let mut st = world.write_storage::<T>();
+        let mut st = wr::<T>(world);
         b.with(T::new(c.0, c.1), &mut st)
     }
 
